@@ -131,6 +131,8 @@ func genString(r *rng.R, fam string) (string, int) {
 				sb.WriteString(rng.Pick(r, []string{"　", " ", " ", "\t"}))
 			case 5:
 				sb.WriteString("  ")
+			case 7:
+				sb.WriteString(rng.Pick(r, []string{"\n ", "\n  ", "\r\n "})) // breakable space right after an explicit line break
 			case 6:
 				sb.WriteString(" \n")
 			default:
